@@ -157,7 +157,7 @@ def check_case(case, ctx):
             # input class: the client connection handler finished (client EOF after the proxy had already sent it a
             # FIN) while a tcp_message hook was still running
             t_cd = [t for t, n in trace if n == "client_disconnected"]
-            if kind == "lost" and t_cd and any(e is None or e > t_cd[0] for _, e in msg_hooks):
+            if kind == "lost" and t_cd and any(e is None or e >= t_cd[0] for _, e in msg_hooks):  # (>=: same virtual instant)
                 after = "message-hook-pending-at-client-teardown"
             ctx.fail("e2e:relay-%s:%s:%s" % (kind, who, after),
                      "sent %d bytes %r..., socket got %d bytes; EOFs at %r, socket closed at %r, trace %r"
